@@ -248,8 +248,8 @@ PROPS = {
         assumptions=["the four language modes are exercised with g++ 12.2 only"]),
     "C01": P("proof", model_variants=["spec", "impl"], streams=["parse", "parse_exhaustive"], trusted_base=TB_CORR + [TB_ICU_LAWS], coq_files=["Properties_C01_total.v", "Properties_C01.v"]),
     "C02": P("proof", model_variants=["spec", "impl"], streams=["reparse"], trusted_base=TB_CORR + [TB_ICU_LAWS2]),
-    "C03": P("proof", model_variants=["spec", "impl"], streams=["setters"], trusted_base=TB_CORR + [TB_ICU_LAWS]),
-    "C05": P("proof", model_variants=["spec", "impl"], streams=["histories"], trusted_base=TB_CORR + [TB_ICU_LAWS, TB_ICU_LAWS2], coq_files=["Properties_C05.v", "Properties_C05_proto2.v", "Properties_C05_repr.v", "Properties_C06.v"]),
+    "C03": P("proof", model_variants=["spec", "impl"], streams=["setters", "serops"], trusted_base=TB_CORR + [TB_ICU_LAWS]),
+    "C05": P("proof", model_variants=["spec", "impl"], streams=["histories", "serops"], trusted_base=TB_CORR + [TB_ICU_LAWS, TB_ICU_LAWS2], coq_files=["Properties_C05.v", "Properties_C05_proto2.v", "Properties_C05_repr.v", "Properties_C06.v"]),
     "C06": P("proof", ["histories"], trusted_base=TB_CORR),
     "C07": P("proof", model_variants=["spec", "impl"], streams=["host"], trusted_base=TB_CORR + ["ICU laws H_ascii and H_keep (Properties_C07.v) are explicit premises of C07_host / C07_fastpath / C07_precheck; they are sampled against the real ICU by the host stream, not proved"]),
     "C08": P("proof", model_variants=["spec", "impl"], streams=["parse", "setters", "histories"],
